@@ -289,7 +289,12 @@ def check(case):
             res.fail("C14.reporter.total", "%s total %s but %d elements" % (kind, total, n))
 
     # -- 2. collector == census (fed after the run / fed during the run as the first reader of every feature)
-    for where, collector in (("", rep_v2), ("first-reader.", early[0].collector)):
+    # ... and through the collector's call API, one model element at a time (what a user-defined reporter does:
+    # `self.collect = SummaryCollector()` ... `self.collect(feature)`)
+    rep_v3 = SummaryCollector()
+    for f in run.features:
+        rep_v3(f)
+    for where, collector in (("", rep_v2), ("first-reader.", early[0].collector), ("call-api.", rep_v3)):
         sc = collector.summary_counts
         coll = {"feature": sc.features, "rule": sc.rules, "scenario": sc.scenarios, "step": sc.steps}
         for kind in KINDS:
